@@ -211,6 +211,27 @@ func c12Exec(cs c12Case) (*fw.Violation, *harness.Client) {
 		case "goaway-1-then-finish":
 			feed(peer.GoAway(s1, 0, "").Bytes())
 			feed(serialize([]peer.Frame{script[0], script[1], script[2], script[7]}))
+		case "goaway-two-step-then-finish":
+			// graceful shutdown as RFC 7540 6.8 describes it: an announcing GOAWAY(2^31-1), then the real one naming
+			// the first request, which is then answered. The second request is disclaimed by the second GOAWAY: it
+			// ends there and then, without any timer, and the connection does not wait for it
+			feed(peer.GoAway(1<<31-1, 0, "").Bytes())
+			feed(peer.GoAway(s1, 0, "").Bytes())
+			moved := false
+			for _, sc := range h.Conns[1:] {
+				for _, sid := range sc.Order {
+					for _, kv := range sc.Streams[sid].Fields {
+						moved = moved || (kv[0] == ":path" && kv[1] == "/three")
+					}
+				}
+			}
+			if !calls[1].Done && !moved {
+				return mk("request-never-resolved", shape, fmt.Sprintf("request %q on stream %d, above the last-stream-id %d of the second GOAWAY, is still waiting on that connection (no timer has fired; it has not been sent anywhere else)", calls[1].Tag, s3, s1)), h
+			}
+			feed(serialize([]peer.Frame{script[0], script[1], script[2], script[7]}))
+			if !calls[0].Done {
+				return mk("request-never-resolved", shape, fmt.Sprintf("request %q on stream %d (<= last-stream-id) was answered in full and is still waiting", calls[0].Tag, s1)), h
+			}
 		case "goaway-error-mid-response":
 			feed(serialize(script[:3]))
 			feed(peer.GoAway(s3, 2, "internal").Bytes())
@@ -508,7 +529,7 @@ func runC12(c *fw.Ctx) {
 		do(c12Case{Family: "mutate", Mut: m})
 	}
 	c.Family("mutate")
-	for _, n := range []string{"rst-one", "rst-refused", "goaway-0", "goaway-1-then-finish", "goaway-error-mid-response", "goaway-covering-then-new-connection-then-close", "oversized-frame", "garbage", "push-promise", "silence", "late-response-after-timeout", "window-update-overflow", "settings-invalid", "headers-on-unknown-stream", "data-before-headers", "ping-flood", "early-response-to-blocked-upload", "early-reset-of-blocked-upload", "not-reading-ping-flood", "not-reading-settings-flood"} {
+	for _, n := range []string{"rst-one", "rst-refused", "goaway-0", "goaway-1-then-finish", "goaway-two-step-then-finish", "goaway-error-mid-response", "goaway-covering-then-new-connection-then-close", "oversized-frame", "garbage", "push-promise", "silence", "late-response-after-timeout", "window-update-overflow", "settings-invalid", "headers-on-unknown-stream", "data-before-headers", "ping-flood", "early-response-to-blocked-upload", "early-reset-of-blocked-upload", "not-reading-ping-flood", "not-reading-settings-flood"} {
 		do(c12Case{Family: "hostile", Name: n})
 	}
 	c.Family("hostile")
@@ -536,7 +557,7 @@ func runC12(c *fw.Ctx) {
 	for cut := 0; cut <= total; cut += step {
 		do(c12Case{Family: "cut", Cut: cut, NoTimeout: true})
 	}
-	for _, n := range []string{"goaway-0", "goaway-error-mid-response", "goaway-covering-then-new-connection-then-close", "oversized-frame", "garbage", "push-promise", "window-update-overflow", "settings-invalid"} {
+	for _, n := range []string{"goaway-0", "goaway-two-step-then-finish", "goaway-error-mid-response", "goaway-covering-then-new-connection-then-close", "oversized-frame", "garbage", "push-promise", "window-update-overflow", "settings-invalid"} {
 		do(c12Case{Family: "hostile", Name: n, NoTimeout: true})
 		do(c12Case{Family: "hostile", Name: n, NoTimeout: true, Streamed: true})
 	}
